@@ -13,5 +13,5 @@ export GOFLAGS=-mod=mod GOPROXY=off GOSUMDB=off GOTOOLCHAIN=local; unset GOWORK
 "$BIN" -property all -repo "$D/repo" -verif "$HERE" -no-evidence 2>&1 | awk '
   /^ *violated |^UNRESOLVED|^ERROR/ {buf = buf "    " substr($0,1,220) "\n"; next}
   /^    found:/ { if (buf != "") buf = buf "      " substr($0,1,200) "\n"; next }
-  /^RESULT / { if ($3 != "rc=0") { printf "%s %s\n%s", $2, $3, buf; bad=1 } buf=""; next }
-  END { if (!bad) print "silent" }'
+  /^RESULT / { seen=1; if ($3 != "rc=0") { printf "%s %s\n%s", $2, $3, buf; bad=1 } buf=""; next }
+  END { if (!seen) { print "CHECKER-FAILED (no result)"; printf "%s", buf } else if (!bad) print "silent" }'
